@@ -6,7 +6,7 @@ DH = '''
         ensures /*@C10 C03*/ r is Ok <==> Self::s_dh(sk.ser(), pk.ser()) is Some,
                 /*@C03 ~C01*/ r is Ok ==> r.unwrap().ser() == Self::s_dh(sk.ser(), pk.ser()).unwrap()'''
 DERIVE = '''
-        ensures /*@C03 C02*/ (r.0.ser(), r.1.ser()) == Self::s_derive(nh_of::<Kdf::HashImpl>(), suite_id@, ikm@),
+        ensures /*@C03 C02 ~C01*/ (r.0.ser(), r.1.ser()) == Self::s_derive(nh_of::<Kdf::HashImpl>(), suite_id@, ikm@),
                 /*@C03*/ r.1.ser() == Self::s_pk_of(r.0.ser())'''
 
 def apply(F):
